@@ -137,6 +137,19 @@ def user_data_spec(rng, comp, mode):
     return ud
 
 
+def rename_compound(rng, comp, ud):
+    """replace one compound of `comp` by a user-defined one with a NEW name (values of the original); returns
+    (composition, user_data)"""
+    chem_db, _b, _pj = _db()
+    comp = list(comp)
+    j = rng.randrange(len(comp))
+    new = 'user_' + comp[j].replace('-', '_')
+    ud = {k: dict(v) for k, v in ud.items() if k != comp[j]}
+    ud[new] = {k: float(chem_db[comp[j]][k]) for k in USER_KEYS}
+    comp[j] = new
+    return comp, ud
+
+
 def add_extras(rng, ud, which):
     for nme in ud:
         for k in which:
@@ -241,22 +254,48 @@ def mole_fractions(rng, n):
 # ---------------------------------------------------------------------------
 
 def particle_list_spec(rng, ptype, kind=None):
-    """kind: 'soluble' | 'inert' | 'mixed'"""
+    """kind: 'soluble' | 'inert' | 'mixed'.  fp_type, delta, delta_groups, sigma_correction, isair are drawn per
+    particle; user data are shared by most particles of a list (one data base per simulation) but dropped or replaced
+    for some; one compound may carry a new, user-defined name"""
     kind = kind or rng.choice(['soluble', 'inert', 'mixed', 'mixed'])
     n = rng.randint(1, 4) if ptype > 0 else 1
     comp = rng.choice(COMPS + LIQ_COMPS)
-    fp = 1 if comp in LIQ_COMPS else rng.choice([0, 0, 1])
+    liquid = comp in LIQ_COMPS
+    newname = rng.random() < 0.25
+    base_ud = None
+    if newname:
+        comp, base_ud = rename_compound(rng, comp, {})
     shared_ud = None
     out = []
     for i in range(n):
         sol = kind == 'soluble' or (kind == 'mixed' and (i % 2 == 0 if n > 1 else rng.random() < 0.5))
         if sol:
-            d = fluid_spec(rng, comp, fp_type=fp)
-            # particles of one simulation normally share one user data base
-            if shared_ud is None:
-                shared_ud = d['user_data']
-            elif rng.random() < 0.85:
-                d['user_data'] = {k: dict(v) for k, v in shared_ud.items()} if rng.random() < 0.8 else {}
+            fp = 1 if liquid else rng.choice([0, 0, 1])
+            if newname:
+                d = fluid_spec(rng, [c for c in comp if not c.startswith('user_')] or ['methane'], fp_type=fp)
+                d['composition'] = list(comp)
+                nc = len(comp)
+                if d['delta'] is not None:
+                    dd = np.zeros((nc, nc))
+                    for a in range(nc):
+                        for b in range(a):
+                            dd[a, b] = dd[b, a] = round(rng.uniform(-0.05, 0.12), 4)
+                    d['delta'] = dd.tolist()
+                if isinstance(d['delta_groups'], list):
+                    g = np.zeros((nc, 15))
+                    for a in range(nc):
+                        g[a, rng.randrange(15)] = rng.choice([1., 2., 3.])
+                    d['delta_groups'] = g.tolist()
+                elif d['delta_groups'] is not None:
+                    d['delta_groups'] = None        # the Privat-Jaubert data base does not know the new name
+                d['user_data'] = {k: dict(v) for k, v in base_ud.items()}
+            else:
+                d = fluid_spec(rng, comp, fp_type=fp)
+                # particles of one simulation normally share one user data base
+                if shared_ud is None:
+                    shared_ud = d['user_data']
+                elif rng.random() < 0.85:
+                    d['user_data'] = {k: dict(v) for k, v in shared_ud.items()} if rng.random() < 0.7 else {}
             m0 = [10 ** rng.uniform(-7, -4) for _ in comp]
         else:
             d = insol_spec(rng)
@@ -282,9 +321,27 @@ def mixed_user_data_list_spec(rng, ptype, with_first, inert_between, tail=False)
     comp = rng.choice(COMPS[:5])
     ud = user_data_spec(rng, comp, 'override')
     base = particle_list_spec(rng, ptype, 'soluble')
+    count = [0]
+
     def sol(with_ud):
-        d = fluid_spec(rng, comp, 0, rich=False)
+        # phase type, interaction coefficients, group-contribution array and sigma differ from particle to particle
+        d = fluid_spec(rng, comp, count[0] % 2, rich=False)
+        nc = len(comp)
+        if nc > 1 and count[0] % 2 == 0:
+            dd = np.zeros((nc, nc))
+            for a in range(nc):
+                for b in range(a):
+                    dd[a, b] = dd[b, a] = round(rng.uniform(0.01, 0.12), 4)
+            d['delta'] = dd.tolist()
+        if count[0] == 1 and 'oxygen' not in comp:
+            g = np.zeros((nc, 15))
+            for a in range(nc):
+                g[a, rng.randrange(15)] = rng.choice([1., 2.])
+                g[a, rng.randrange(15)] += 1.
+            d['delta_groups'] = g.tolist()
+        d['sigma_correction'] = round(1. - 0.1 * count[0], 2)
         d['user_data'] = {k: dict(v) for k, v in ud.items()} if with_ud else {}
+        count[0] += 1
         return d, [10 ** rng.uniform(-7, -4) for _ in comp]
     seq = [sol(with_first)]
     if inert_between:
@@ -301,6 +358,25 @@ def mixed_user_data_list_spec(rng, ptype, with_first, inert_between, tail=False)
                       'sim_stored': True, 'farfield': False, 't': rng.uniform(0., 500.), 'exit': None})
         out.append(p)
     base.update({'kind': 'mixed-user-data', 'composition': comp, 'particles': out})
+    return base
+
+
+def composition_variant_list_spec(rng, ptype, variant):
+    """plume particle list in which the second soluble particle lists the compounds of the first in another order
+    ('reordered') or has only the first compound ('subset'); bent-plume simulations of such lists run"""
+    comp = rng.choice([c for c in COMPS[:5] if len(c) >= 2])
+    base = particle_list_spec(rng, ptype, 'soluble')
+    comp2 = list(reversed(comp)) if variant == 'reordered' else [comp[0]]
+    out = []
+    for c in (comp, comp2):
+        p = {'dbm': fluid_spec(rng, c, 0, rich=False), 'm0': [10 ** rng.uniform(-7, -4) for _ in c],
+             'T0': rng.uniform(275., 300.), 'nb0': 10 ** rng.uniform(1, 5)}
+        p.update(wrap_spec(rng, rich=False))
+        if ptype == 2:
+            p.update({'x': 0., 'y': 0., 'z': rng.uniform(100., 1000.), 'nbe': 10 ** rng.uniform(1, 4), 'integrate': True,
+                      'sim_stored': True, 'farfield': False, 't': rng.uniform(0., 500.), 'exit': None})
+        out.append(p)
+    base.update({'kind': 'composition-' + variant, 'composition': comp, 'particles': out})
     return base
 
 
@@ -348,6 +424,10 @@ def sbm_spec(rng, rich=True, kind=None):
     kind = kind or rng.choice(['soluble', 'soluble', 'inert'])
     comp = rng.choice(COMPS[:5])
     d = fluid_spec(rng, comp, 0, rich) if kind == 'soluble' else insol_spec(rng, True, rich)
+    if kind == 'soluble' and rich and rng.random() < 0.3:
+        # one compound under a new, user-defined name
+        d['delta_groups'] = d['delta_groups'] if isinstance(d['delta_groups'], list) else None
+        d['composition'], d['user_data'] = rename_compound(rng, comp, d['user_data'])
     s = {'model': 'sbm', 'kind': kind, 'dbm': d, 'z0': rng.uniform(80., 350.), 'x0': rng.choice([0., rng.uniform(-10, 10)]),
          'de': rng.uniform(0.002, 0.008), 'yk': mole_fractions(rng, len(comp)) if kind == 'soluble' else [1.],
          'T0': rng.choice([None, rng.uniform(278., 300.)]), 'delta_t': rng.choice([5., 10., 20.])}
@@ -371,6 +451,8 @@ def _plume_particle_specs(rng, kind, comp, rich, nmax=3):
     n = {'soluble': rng.randint(1, 2), 'inert': rng.randint(1, 2), 'mixed': rng.randint(2, nmax)}[kind]
     out = []
     shared = None
+    newname = rich and kind != 'inert' and rng.random() < 0.25
+    new_comp = new_ud = None
     for i in range(n):
         sol = kind == 'soluble' or (kind == 'mixed' and i % 2 == 0)
         if sol:
@@ -378,11 +460,22 @@ def _plume_particle_specs(rng, kind, comp, rich, nmax=3):
             if shared is None:
                 shared = d
             else:
-                # one chemical data base per simulation; a later particle may fall back to the built-in one
-                for k in ('user_data', 'delta', 'delta_groups'):
-                    d[k] = shared[k]
+                # one user data base per simulation; a later particle may fall back to the built-in one.  delta and
+                # delta_groups are drawn per particle (kept from the first one half of the time)
+                d['user_data'] = shared['user_data']
                 if shared['user_data'] and rng.random() < 0.4:
                     d['user_data'] = {}
+                if rng.random() < 0.5:
+                    d['delta'], d['delta_groups'] = shared['delta'], shared['delta_groups']
+            if newname:
+                # every soluble particle of the simulation uses the same composition with the user-defined compound
+                if new_comp is None:
+                    new_comp, new_ud = rename_compound(rng, comp, {})
+                d['composition'] = list(new_comp)
+                d['user_data'] = {k: dict(v) for k, v in new_ud.items()}
+                d['delta_groups'] = d['delta_groups'] if isinstance(d['delta_groups'], list) else None
+            elif rich and shared is not d and rng.random() < 0.25 and len(comp) > 1:
+                d['fp_type'] = 1          # a liquid-phase particle next to a gas-phase one
             p = {'dbm': d, 'yk': mole_fractions(rng, len(comp)), 'mb0': rng.uniform(0.02, 0.5), 'de': rng.uniform(0.002, 0.008)}
         else:
             p = {'dbm': insol_spec(rng, True, rich), 'yk': [1.], 'mb0': rng.uniform(0.02, 0.5), 'de': rng.uniform(0.001, 0.005)}
